@@ -45,6 +45,7 @@ pub fn run(id: &str, tier: Tier, seed: u64) -> Option<i32> {
         "C01" => Some(c01::run(tier, seed)),
         "C02" => Some(c02::run(tier, seed)),
         "C03" => Some(c03::run(tier, seed)),
+        "C04" => Some(c04::run(tier, seed)),
         "C05" => Some(c05::run(tier, seed)),
         "C06" => Some(c06::run(tier, seed)),
         "C07" => Some(c07::run(tier, seed)),
